@@ -419,6 +419,24 @@ def _part_a(case, ev):
             if oa.status != "completed" or {k_: (oa.values or {}).get(k_) for k_ in want_vals} != want_vals or set(oa.values) - set(cur_out) - set(supplied) - {"w_out"}:
                 raise Violation("c06.output_value", f"[graph, {how}] run with {J(supplied)} gave {oa.brief()}, expected {J(want_vals)}; outputs={cur_out} history={J(hist)}", kind_of_node=kind, how=how)
         labels.add("graph_node_async_and_wrapped_again")
+        if hist:
+            # ... and on ONE AsyncRunner object: the renamed wrapper first, then the original wrapper (same node name, same inner
+            # graph, other input names) - nothing the runner remembered about the first may be applied to the second
+            from hypergraph import AsyncRunner
+
+            shared_async = AsyncRunner()
+            ctx.reset()
+            run_async(Graph([node]), supplied, runner=shared_async)
+            cur0a = {slot_orig[i]: cur_in0[i] for i in range(n_in)}
+            sup0a = {cur0a[pos]: ("val0", pos) for pos in range(n_in) if pos not in eff_defaults or case["supply"][pos]}
+            want0a = tuple(sup0a.get(cur0a[pos], eff_defaults.get(pos)) for pos in range(n_in))
+            ctx.reset()
+            o0a = run_async(Graph([node0]), sup0a, runner=shared_async)
+            c0a = ctx.calls(fid)
+            if o0a.status != "completed" or not c0a or c0a[-1] != want0a:
+                raise Violation("c06.receiver_behaviour_changed", f"[graph, one AsyncRunner] after the renamed wrapper (inputs {cur_in}) ran, the ORIGINAL wrapper (inputs {cur_in0}) run with {J(sup0a)} on the same "
+                                f"runner gave {o0a.brief()} / calls {J(c0a)}, expected arguments {J(want0a)}; history={J(hist)}", kind_of_node=kind, shared_async_runner=True)
+            labels.add("renamed_then_original_on_one_async_runner")
     # ---- the receiver of all those derivations, run under ITS names: nothing of the history may have reached it
     if case.get("rerun_receiver") and kind in ("func", "graph") and hist:
         cur0 = {slot_orig[i]: cur_in0[i] for i in range(n_in)}
